@@ -55,6 +55,8 @@ def render(run) -> str:
         o.append('TEMPLOC 1')
     if run.get('hquery'):
         o.append('HQUERY 1')
+    if run.get('refetch'):
+        o.append('REFETCH 1')
     if run.get('slowlog'):
         o.append(f"SLOWLOG {run['slowlog']}")
     for t in run['tasks']:
@@ -82,6 +84,8 @@ def vary_env(rng: Rng, run):
         run['idquery'] = r.between(1, run['clients'] - 1)
     if r.chance(30):
         run['sibling'] = r.between(1, 2)   # a second, independent instance of the same shell type lives in the process
+    if r.chance(35):
+        run['refetch'] = 1   # the user asks the accessor for the port again at every call instead of keeping it
     if run.get('clients', 0) >= 1 and r.chance(35):
         run['hquery'] = 1    # out-event handlers of the multi-client port ask the shell for the client identifiers
     if run['loc']['pump'] == 0 and run['loc']['runtime'] == 0 and r.chance(40):
